@@ -23,6 +23,12 @@ pub assume_specification<K: Ord, V, A: Allocator + Clone>[ BTreeMap::<K, V, A>::
             None => m@.dom().is_empty(),
             Some((k, v)) => is_min_key(m@, *k) && m@[*k] == *v,
         };
+pub assume_specification<K: Ord, V, A: Allocator + Clone>[ BTreeMap::<K, V, A>::last_key_value ](m: &BTreeMap<K, V, A>) -> (r: Option<(&K, &V)>)
+    ensures
+        obeys_cmp::<K>() ==> match r {
+            None => m@.dom().is_empty(),
+            Some((k, v)) => is_max_key(m@, *k) && m@[*k] == *v,
+        };
 pub uninterp spec fn borrow_cmp<K, Q: ?Sized>(k: K, q: &Q) -> Ordering;
 pub broadcast axiom fn axiom_borrow_cmp_same<K: Ord>(k: K, q: &K)
     ensures #[trigger] borrow_cmp::<K, K>(k, q) == k.cmp_spec(q);
